@@ -20,7 +20,7 @@ import hashlib
 import re
 
 from .. import workload
-from ..common import NEUTRAL_WORLD, OpView, done, event_digest, run, violation
+from ..common import NEUTRAL_WORLD, OpView, cached_run, done, event_digest, run, violation
 from ..corpus import b64, unb64
 
 PROP = "C14"
@@ -38,7 +38,7 @@ ASSUMPTIONS = [
     "in fix mode pass participation is not modelled: every sub-pass may be empty or a bare START for a rule; a fix-capable rule must take part in the first pass",
     "a bracket may be cut short only in the file where an injected fault fired",
 ]
-PROBES = ["scan_brackets_checked", "fix_token_brackets_checked", "fix_line_brackets_checked", "disabled_probe_checked", "empty_file", "no_final_newline", "pragma_token_stripped", "fix_with_token_fix", "probe_highest_level", "three_levels", "builtin_recorded", "fault_cut_short"]
+PROBES = ["fix_stream_vs_scan_checked", "scan_brackets_checked", "fix_token_brackets_checked", "fix_line_brackets_checked", "disabled_probe_checked", "empty_file", "no_final_newline", "pragma_token_stripped", "fix_with_token_fix", "probe_highest_level", "three_levels", "builtin_recorded", "fault_cut_short"]
 
 EDGE_DOCS = [
     "edge_empty",
@@ -170,6 +170,35 @@ def _request(sc, builtin_ids, plan=None, record_sites=False):
     return request
 
 
+def _reference_stream(sc, op, builtin_ids, content):
+    """Tokens a recording rule receives when `content` is scanned (pristine
+    process, same extension settings): list of digests, or None."""
+    flags = []
+    source = op["flags"]
+    index = 0
+    while index < len(source):
+        if source[index] == "--set":
+            flags += ["--set", source[index + 1]]
+            index += 2
+        else:
+            index += 1
+    flags += ["--add-plugin", workload.PROBE_FILES["zzz999"], "-d", ",".join(builtin_ids)]
+    request = {
+        "files": {"ref.md": {"b64": b64(content)}},
+        "world": dict(NEUTRAL_WORLD),
+        "cpu": 30,
+        "record_cb": ["zzz999"],
+        "ops": [{"kind": "cli", "argv": flags + ["scan", "ref.md"], "probes": {"zzz999": {"fix": False}}}],
+    }
+    reply = cached_run(request, sc["cls"])
+    if not done(reply):
+        return None
+    view = OpView(reply["result"]["ops"][0])
+    if view.exc or view.err_other or view.err0:
+        return None
+    return [entry[3][0] for entry in reply["result"]["log"] if entry[0] == "cb" and entry[1] == "zzz999" and entry[2] == "next_token"]
+
+
 def _universal_lines(data):
     text = data.decode("utf-8")
     text = text.replace("\r\n", "\n").replace("\r", "\n")
@@ -212,6 +241,13 @@ def _check_segment(events, mode, plugin, fixable, stats, where):
         stats["pragma_token_stripped"] += 1
     # (scan strips the trailing pragma token, the fix passes deliver it: the
     # statement does not say which, both are accepted)
+    if mode == "fix" and "next_token" in impl and where.get("collect") is not None:
+        # remember what was delivered for which bytes: compared later with what a
+        # plain scan of the same bytes delivers (the same file must present the
+        # same stream in every mode)
+        content = where["reads"].get(anchor[2])
+        if content is not None:
+            where["collect"].append((content, list(got), bool(last_pragma), plugin, where.get("cur_file")))
     if got != digests:
         return "bad", "token stream differs from the parser's: got %d tokens, parser returned %d (first difference at %s)" % (
             len(got),
@@ -320,7 +356,7 @@ def evaluate(sc):
                 segment = {"file": current_target, "events": collections.defaultdict(list), "read": 0}
                 per_op[current_op].append(segment)
             segment["events"][entry[1]].append((entry[2], entry[3], read_id, parse_id))
-    where = {"reads": reads, "parses": parses, "impl": result.get("impl", {})}
+    where = {"reads": reads, "parses": parses, "impl": result.get("impl", {}), "collect": None}
 
     checked = 0
     for op_index, op in enumerate(sc["ops"]):
@@ -328,6 +364,7 @@ def evaluate(sc):
         view = OpView(result["ops"][op_index])
         errored_files = set(view.err0) | set(re.findall(r" encountered while scanning '([^']+)':", view.stderr))
         aborted = bool(view.exc) or any(marker in view.stderr for marker in ("Unexpected Error", "Configuration Error", "BadPluginError encountered", "BadTokenizationError encountered"))
+        where["collect"] = [] if mode == "fix" else None
         for plugin in sc["record"]:
             probe_cfg = sc["probes"].get(plugin)
             fixable = bool(probe_cfg.get("fix")) if probe_cfg is not None else None
@@ -337,6 +374,7 @@ def evaluate(sc):
             problem = None
             for segment in per_op.get(op_index, []):
                 events = segment["events"].get(plugin, [])
+                where["cur_file"] = segment["file"]
                 shape, issue = _check_segment(events, mode, plugin, fixable, stats, where)
                 in_faulted = faulted_file is not None and segment["file"] == faulted_file and op_index == faulted_op
                 if in_faulted:
@@ -346,7 +384,8 @@ def evaluate(sc):
                     # a (natural) contained rule/parser error in this file cuts its brackets short
                     stats["natural_error_cut_short"] += 1
                     shape, issue = "cut", None
-                if issue and aborted and segment["file"] == (per_op[op_index][-1]["file"]):
+                if aborted and segment["file"] == (per_op[op_index][-1]["file"]):
+                    # the run stopped in this file (error without --continue-on-error)
                     shape, issue = "cut", None
                 if issue:
                     problem = (segment["file"], issue, _compress([e[0] for e in events]))
@@ -395,6 +434,42 @@ def evaluate(sc):
                         {"op_index": op_index, "plugin": plugin, "probe_cfg": probe_cfg, "file": file_name, "document": op["labels"].get(file_name), "problem": issue, "callbacks_seen": seen},
                     )
                 )
+        # fix sub-passes must present the stream a scan of the same bytes presents
+        if where["collect"]:
+            seen = set()
+            cut_files = set(errored_files)
+            if faulted_file is not None and op_index == faulted_op:
+                cut_files.add(faulted_file)
+            if aborted and per_op.get(op_index):
+                cut_files.add(per_op[op_index][-1]["file"])
+            for content, got, last_pragma, plugin, file_name in where["collect"]:
+                if file_name in cut_files:
+                    continue
+                key = (content, tuple(got))
+                if key in seen:
+                    continue
+                seen.add(key)
+                reference = _reference_stream(sc, op, builtin_ids, content)
+                if reference is None:
+                    continue
+                stats["fix_stream_vs_scan_checked"] += 1
+                candidates = [got, got[:-1]] if last_pragma else [got]
+                if reference not in candidates:
+                    out.append(
+                        violation(
+                            "C14/lifecycle",
+                            "C14/lifecycle|fix|stream-differs-from-scan",
+                            {
+                                "op_index": op_index,
+                                "plugin": plugin,
+                                "delivered_tokens": len(got),
+                                "scan_delivers": len(reference),
+                                "first_difference": next((i for i, (a, b) in enumerate(zip(got, reference)) if a != b), min(len(got), len(reference))),
+                                "content": repr(content)[:200],
+                            },
+                        )
+                    )
+                    break
         # disabled rule receives nothing
         if sc.get("disabled"):
             calls = result["ops"][op_index].get("probe_calls", {}).get(sc["disabled"], 0)
